@@ -6,8 +6,10 @@ import FitProofs.DecodeEncode
 import FitProofs.Chain
 import FitProps.C01
 import FitProps.C10
+import FitProps.C05
 import FitProps.C07Fix
 import FitProps.C07Ok
+import FitProps.C07Str
 /-!
   C07 — anything Decode accepts can be re-encoded, and one round trip is a fixpoint.
 
@@ -131,9 +133,9 @@ theorem decoded_file_typed (P : Profile) (hwf : ProfileWF P = true) (hx : xokB P
     obtain ⟨F', h1, h2, _⟩ := finalize_content o _ F0 hf0
     rw [h1] at hF
     cases hF
-    obtain ⟨_, _, e3, e4, e5, _, _, e8, e9⟩ := h2
+    obtain ⟨e1, _, e3, e4, e5, _, _, e8, e9⟩ := h2
     obtain ⟨t1, t2⟩ := ht F0 hf0
-    exact ⟨t1.congr e3 e4 e5 e8 e9, by rw [e8]; exact t2⟩
+    exact ⟨t1.congr e3 e4 e5 e8 e9 e1, by rw [e8]; exact t2⟩
 
 /-- **`Encode` of the result of a successful `Decode` never panics**, for any input bytes, read
     schedule, option set, package state and byte order. -/
@@ -163,6 +165,72 @@ example (r : Reader) (hd : r.data = C10.minFile) (hstop : r.stop = .eof) (arch :
     rw [decode_out_eq_spec, hd, hstop]; exact hspec.2
   obtain ⟨F, hF⟩ := Option.isSome_iff_exists.mp hf
   exact ⟨F, hF, reencode_never_panics_gen {} {} r arch hs F hF⟩
+
+/-- no message type a File of the regenerated profile can hold has a string-array field -/
+theorem gen_held_no_string_arrays : heldNoStrArrB Gen.profile = true := by decide +kernel
+
+/-- **`Encode` of what `Decode` returned fails only through a string** (finding D13, made exact): for
+    any input, read schedule, option set, package state and byte order, if every string field of the
+    decoded File re-encodes — `encodeString` accepts it at the field's profile length, i.e. cut to the
+    field size it is still valid UTF-8 — then `Encode` returns bytes: it cannot panic (the File is
+    well typed) and no other value a decoded File can hold is refused by `writeField`
+    (`writeField_typed_no_error`; FitProps/C07Str.lean). -/
+theorem reencode_ok_unless_strings (P : Profile) (hwf : ProfileWF P = true) (hx : xokB P = true) (hfl : fidLayoutB P = true)
+    (hheld : heldNoStrArrB P = true)
+    (o : Opts) (g : Globals) (r : Reader) (arch : Endian) (hs : (decode P o .full g r).1.success) (F : FileSt)
+    (hF : (decode P o .full g r).1.st.file = some F)
+    (hstr : (∀ pm, P.msg? F.fileId.num = some pm → StringsEncode pm F.fileId) ∧
+      (∀ m, F.creator = some m → ∀ pm, P.msg? m.num = some pm → StringsEncode pm m) ∧
+      (∀ m, F.tscorr = some m → ∀ pm, P.msg? m.num = some pm → StringsEncode pm m) ∧
+      (∀ ms ∈ F.slots, ∀ m ∈ ms, ∀ pm, P.msg? m.num = some pm → StringsEncode pm m)) :
+    ∃ bs f', encode P arch F = .ok bs f' := by
+  obtain ⟨h1, h2⟩ := decoded_file_typed P hwf hx hfl o g r hs F hF
+  exact encode_typed_ok_strings P hwf hheld arch F h1 h2 hstr
+
+/-- the instance for the tree under check -/
+theorem reencode_ok_unless_strings_gen (o : Opts) (g : Globals) (r : Reader) (arch : Endian)
+    (hs : (decode Gen.profile o .full g r).1.success) (F : FileSt)
+    (hF : (decode Gen.profile o .full g r).1.st.file = some F)
+    (hstr : (∀ pm, Gen.profile.msg? F.fileId.num = some pm → StringsEncode pm F.fileId) ∧
+      (∀ m, F.creator = some m → ∀ pm, Gen.profile.msg? m.num = some pm → StringsEncode pm m) ∧
+      (∀ m, F.tscorr = some m → ∀ pm, Gen.profile.msg? m.num = some pm → StringsEncode pm m) ∧
+      (∀ ms ∈ F.slots, ∀ m ∈ ms, ∀ pm, Gen.profile.msg? m.num = some pm → StringsEncode pm m)) :
+    ∃ bs f', encode Gen.profile arch F = .ok bs f' :=
+  reencode_ok_unless_strings Gen.profile C01.gen_wf gen_xok gen_fid_layout gen_held_no_string_arrays o g r arch hs F hF hstr
+
+/-- **The re-encoded bytes pass `CheckIntegrity`** — for every decoded File `Encode` accepts, with no
+    hypothesis on its messages: the File carries the header `decodeHeader` accepted (12 or 14 bytes,
+    ".FIT", a supported protocol version — part of the typing invariant, `FileTyped.hdr`), so what
+    `Encode` lays out is a frame whose header and trailing CRCs the integrity pass recomputes
+    (`C05.encode_passes_integrity_any`). With `reencode_ok_unless_strings`: unless a string stands in
+    the way, re-encoding a decoded File gives bytes that pass `CheckIntegrity`. -/
+theorem reencode_passes_integrity (P : Profile) (hwf : ProfileWF P = true) (hx : xokB P = true) (hfl : fidLayoutB P = true)
+    (o : Opts) (g : Globals) (r : Reader) (arch : Endian) (hs : (decode P o .full g r).1.success) (F : FileSt)
+    (hF : (decode P o .full g r).1.st.file = some F) (bs : Bytes) (f' : FileSt)
+    (he : encode P arch F = .ok bs f') (hsmall : bs.length < 4294967296)
+    (o2 : Opts) (g2 : Globals) (tail : Bytes) (stop : Stop) :
+    (decodeSpec P o2 .crcOnly g2 (bs ++ tail) stop).1.success := by
+  obtain ⟨h1, _⟩ := decoded_file_typed P hwf hx hfl o g r hs F hF
+  obtain ⟨hsz, htag, hp, hp2⟩ := h1.hdr
+  exact C05.encode_passes_integrity_any P arch F f' bs he hsz htag ⟨hp, hp2⟩ hsmall o2 g2 tail stop
+
+/-- the instance for the tree under check -/
+theorem reencode_passes_integrity_gen (o : Opts) (g : Globals) (r : Reader) (arch : Endian)
+    (hs : (decode Gen.profile o .full g r).1.success) (F : FileSt)
+    (hF : (decode Gen.profile o .full g r).1.st.file = some F) (bs : Bytes) (f' : FileSt)
+    (he : encode Gen.profile arch F = .ok bs f') (hsmall : bs.length < 4294967296)
+    (o2 : Opts) (g2 : Globals) (tail : Bytes) (stop : Stop) :
+    (decodeSpec Gen.profile o2 .crcOnly g2 (bs ++ tail) stop).1.success :=
+  reencode_passes_integrity Gen.profile C01.gen_wf gen_xok gen_fid_layout o g r arch hs F hF bs f' he hsmall o2 g2 tail stop
+
+/-- the string premise is satisfiable and can fail: the product name "AB" of `C06.exampleFileId`
+    re-encodes; a name that is cut inside a two-byte character does not (D13) -/
+example :
+    (match Gen.profile.msg? 0 with
+     | some pm => stringsEncodeB pm C06.exampleFileId &&
+         !stringsEncodeB pm ⟨0, [.u 4, .u 1, .u 2, .u 3, .t 100 0 0, .u 5,
+           .s ((List.replicate 18 65) ++ [0xC3, 0xA9])]⟩
+     | none => false) = true := by decide +kernel
 
 /-- **Second generation: the first trip's result is a fixed point** (instance for the tree under
     check; generic statement and proof: `Fit.second_trip_fixpoint`). For every File `f` in the
